@@ -464,10 +464,15 @@ Proof.
   apply crlf_only_app; [exact Hca | apply crlf_only_no_final_cr, Hca | reflexivity].
 Qed.
 
-(* ---------- significant tokens, without positions: the tokenizer of C14's token-level theorem ---------- *)
-Definition sig_views (src : list Z) : option (list stok) :=
+(* ---------- significant tokens as views: kind, text (strings: the denoted bytes), numeric value, long
+   bracket level - neither positions nor the spelling of a quoted string.  This is the tokenizer of
+   C14's token-level theorem. ---------- *)
+Definition tview (t : stok) : Z * list Z * Z * Z * Z :=
+  (skind_code (s_kind t), s_text t, s_num t, s_den t, s_long t).
+
+Definition sig_views (src : list Z) : option (list (Z * list Z * Z * Z * Z)) :=
   match spec_toks src with
-  | Some ts => Some (filter (fun t => negb (is_trivia t)) ts)
+  | Some ts => Some (map tview (filter (fun t => negb (is_trivia t)) ts))
   | None => None
   end.
 
@@ -481,7 +486,7 @@ Proof.
   unfold sig_views. intros Hlf Ha Hb.
   destruct (spec_toks a) as [ta'|] eqn:Ea; [|discriminate]. destruct (spec_toks b) as [tb'|] eqn:Eb; [|discriminate].
   injection Ha as <-. injection Hb as <-.
-  rewrite (spec_toks_app _ _ _ _ Ea Hlf Eb), filter_app. reflexivity.
+  rewrite (spec_toks_app _ _ _ _ Ea Hlf Eb), filter_app, map_app. reflexivity.
 Qed.
 
 Theorem sig_views_final_lf a ta : sig_views a = Some ta -> sig_views (a ++ [10]) = Some ta.
